@@ -101,6 +101,21 @@ func init() {
 }
 
 func runC09(c *engine.Ctx) {
+	// the first thing this process asks of each group is a shared secret (a responder that received a public value
+	// and whose own public value is computed afterwards; a group that sets itself up on first use)
+	for gi := 0; gi < 2; gi++ {
+		g := ref.GroupByID(dhIDs[gi])
+		x := new(big.Int).SetBytes(univ.Pat(20, 90+gi))
+		y := new(big.Int).SetBytes(g.Public(big.NewInt(int64(777 + gi))))
+		cs := c09Case{K: "exp", Group: gi, X: x.Text(16), Y: y.Text(16)}
+		var sh []byte
+		c.Evals++
+		if pi := engine.Catch(func() { sh = dh.StrToType(dhNames[gi]).GetSharedKey(new(big.Int).Set(x), new(big.Int).Set(y)) }); pi != nil {
+			c.Violate(pi.Sig(), "GetSharedKey as the first operation on the group in this process panics: "+pi.Value, cs)
+		} else if !bytes.Equal(sh, g.Shared(x, y)) {
+			c.Violate(fmt.Sprintf("shared-secret/group%d/first-operation", dhIDs[gi]), "GetSharedKey as the first operation on the group in this process differs from y^x mod p", cs)
+		}
+	}
 	for gi := 0; gi < 2; gi++ {
 		if c.Mine() {
 			c09Prime(c, gi)
